@@ -306,7 +306,10 @@ class OnlineVariance(object):
                     average += avg*cnt
         average/=size
         #print('AVERGAE',average)
-        counts = np.array(counts) * size/np.sum(counts)
+        # size/np.sum(counts) first: counts*size underflows to zero for very
+        # small weights (every sample of weight 1e-300) and all ranks
+        # would be skipped below
+        counts = np.array(counts) * (size/np.sum(counts))
 
         squares = None
 
